@@ -51,6 +51,9 @@ struct PsoPrev {
     xs: Vec<Vec<f64>>,
     vs: Vec<Vec<f64>>,
     w: f64,
+    /// positions of the personal bests and of the global best (what the next velocity update is attracted to)
+    pbs: Vec<Vec<f64>>,
+    gb: Option<Vec<f64>>,
 }
 
 /// `two`: the run has a second swarm with identifier A (after a first phase with the default identifier); as soon as
@@ -101,7 +104,7 @@ fn pso_extra(params: &Value, n: u32, two: bool) -> Extra<RealProblem> {
         let mut p = prev.lock().unwrap();
         let vmax_ok = vs.as_ref().map(|vs| vs.iter().flatten().all(|v| v.abs() <= v_max)).unwrap_or(true);
         // after a velocity update: every particle moved by exactly its new velocity
-        let (mut moved, mut vexact) = (2, 2);
+        let (mut moved, mut vexact, mut vrange) = (2, 2, 2);
         if name == "ParticleVelocitiesUpdate" {
             if let Some(vs) = &vs {
                 let same_shape = vs.len() == xs.len() && p.xs.len() == xs.len() && p.vs.len() == vs.len();
@@ -109,6 +112,26 @@ fn pso_extra(params: &Value, n: u32, two: bool) -> Extra<RealProblem> {
                     && xs.iter().zip(&p.xs).zip(vs).all(|((x, xo), v)| {
                         x.len() == xo.len() && x.len() == v.len() && x.iter().zip(xo).zip(v).all(|((x, xo), v)| x.to_bits() == (xo + v).to_bits())
                     })) as i64;
+                // whatever the acceleration coefficients: the new velocity is the stored weight times the old one plus two
+                // attraction terms c * rand * (best - x) with rand in [0, 1] -- each term lies between 0 and c * (best - x) --
+                // clamped: the interval these leave for every coordinate must contain the new velocity
+                if same_shape && p.pbs.len() == xs.len() && p.gb.is_some() {
+                    let g = p.gb.as_ref().unwrap();
+                    vrange = vs.iter().zip(&p.vs).zip(p.xs.iter().zip(&p.pbs)).all(|((v, vo), (xo, pb))| {
+                        v.len() == vo.len()
+                            && v.len() == xo.len()
+                            && pb.len() == xo.len()
+                            && g.len() == xo.len()
+                            && (0..v.len()).all(|k| {
+                                let (a, b) = (c1 * (pb[k] - xo[k]), c2 * (g[k] - xo[k]));
+                                let base = p.w * vo[k];
+                                let slack = 1e-9 * (base.abs() + a.abs() + b.abs()) + f64::MIN_POSITIVE;
+                                let lo = (base + a.min(0.0) + b.min(0.0) - slack).clamp(-v_max, v_max);
+                                let hi = (base + a.max(0.0) + b.max(0.0) + slack).clamp(-v_max, v_max);
+                                !(base + a + b).is_finite() || (lo <= v[k] && v[k] <= hi)
+                            })
+                    }) as i64;
+                }
                 if c1 == 0.0 && c2 == 0.0 {
                     // without acceleration terms the new velocity is exactly the stored weight times the old one, clamped
                     // (the code adds c*rand()*(..) = 0*.. = 0.0, which does not change the sum)
@@ -157,10 +180,16 @@ fn pso_extra(params: &Value, n: u32, two: bool) -> Extra<RealProblem> {
         let x = json!({
             "np": xs.len(), "nv": vs.as_ref().map(|v| v.len() as i64).unwrap_or(-1),
             "npb": pb.as_ref().map(|b| b.len() as i64).unwrap_or(-1),
-            "vmax_ok": vmax_ok as i64, "moved": moved, "vexact": vexact, "wexact": wexact, "wsched": wsched, "sw": switched as i64,
+            "vmax_ok": vmax_ok as i64, "moved": moved, "vexact": vexact, "vrange": vrange, "wexact": wexact, "wsched": wsched, "sw": switched as i64,
             "pbr": pbr, "gbr": gbr,
         });
         p.xs = xs;
+        if let Some(b) = &pb {
+            p.pbs = b.iter().map(|i| i.solution().clone()).collect();
+        }
+        if let Some(g) = &gb {
+            p.gb = g.as_ref().map(|i| i.solution().clone());
+        }
         if let Some(vs) = vs {
             p.vs = vs;
         }
@@ -171,8 +200,10 @@ fn pso_extra(params: &Value, n: u32, two: bool) -> Extra<RealProblem> {
     })
 }
 
-fn cro_extra(_params: &Value) -> Extra<RealProblem> {
+fn cro_extra(params: &Value) -> Extra<RealProblem> {
     let prev_energy: Mutex<Option<f64>> = Mutex::new(None);
+    // populations of the caller underneath the reaction's population ("real_cro|under")
+    let under = if params.get("under_size").is_some() { 1 } else { 0 };
     Box::new(move |problem, state: &State<RealProblem>, _name| {
         type P = RealProblem;
         let mut others = Vec::new();
@@ -182,10 +213,11 @@ fn cro_extra(_params: &Value) -> Extra<RealProblem> {
         let (mut on, mut nm, mut nb) = (0, -1i64, -1i64);
         let (mut ke_ok, mut buf_ok, mut cons, mut best_le) = (1, 1, 1, 1);
         if let (Some(pops), Some(reaction), Some(buffer)) = (pops, reaction, buffer) {
-            if pops.len() >= 1 && !reaction.is_empty() {
+            if pops.len() >= 1 + under && !reaction.is_empty() {
                 on = 1;
-                // the molecules belong to the bottom population of the stack (reactants and products are above it)
-                let base = pops.peek(pops.len() - 1);
+                // the molecules belong to the reaction's population: the bottom population of the stack, or the one on top
+                // of the caller's own (reactants and products are above it)
+                let base = pops.peek(pops.len() - 1 - under);
                 nm = reaction.len() as i64;
                 nb = base.len() as i64;
                 ke_ok = reaction.iter().all(|m| m.kinetic_energy >= 0.0) as i64;
@@ -384,9 +416,9 @@ fn sa_extra<P: Instrumented>(params: &Value) -> Extra<P> {
 pub fn real_extra(name: &str, params: &Value, n: u32) -> (String, Extra<RealProblem>) {
     match name {
         "real_sa" | "real_sa|nested" => ("sa".to_string(), sa_extra::<RealProblem>(params)),
-        "real_pso" | "real_pso|evals" | "real_pso|log4" | "real_pso|scoped" | "real_pso|phase2" => ("pso".to_string(), pso_extra(params, n, false)),
+        "real_pso" | "real_pso|evals" | "real_pso|log4" | "real_pso|scoped" | "real_pso|phase2" | "real_pso|const" => ("pso".to_string(), pso_extra(params, n, false)),
         "real_pso@AG" => ("pso".to_string(), pso_extra(params, n, true)),
-        "real_cro" => ("cro".to_string(), cro_extra(params)),
+        "real_cro" | "real_cro|under" => ("cro".to_string(), cro_extra(params)),
         _ => ("-".to_string(), Box::new(|_, _, _| (Vec::new(), json!({})))),
     }
 }
